@@ -103,7 +103,7 @@ def show(t: Any) -> str:
 
 
 class Event:
-    __slots__ = ("kind", "node", "nid", "callee", "attr", "recv", "args", "kwargs", "result", "target", "old", "value", "ncond", "raised", "key")
+    __slots__ = ("kind", "node", "nid", "callee", "attr", "recv", "args", "kwargs", "result", "target", "old", "value", "ncond", "raised", "key", "held")
 
     def __init__(self, kind: str, node: ast.AST | None, nid: int, **kw: Any) -> None:
         self.kind = kind
@@ -114,6 +114,7 @@ class Event:
         self.kwargs: dict[str, Term] = {}
         self.ncond = 0
         self.raised = False
+        self.held: tuple = ()
         for k, v in kw.items():
             setattr(self, k, v)
 
@@ -143,6 +144,9 @@ class State:
         self.feasible = True
         self.defs: dict[str, ast.AST] = {}
         self._no_havoc = False
+        #: context managers / locks currently held (terms), innermost last; recorded per condition and per event
+        self.held: tuple = ()
+        self.cond_held: list[tuple] = []
 
     def clone(self) -> "State":
         s = State()
@@ -154,6 +158,8 @@ class State:
         s.nfresh = self.nfresh
         s.feasible = self.feasible
         s.defs = dict(self.defs)
+        s.held = self.held
+        s.cond_held = list(self.cond_held)
         return s
 
     # ---- queries
@@ -303,6 +309,8 @@ class Evaluator:
         self.rewrite = rewrite
         self.fold_consts = fold_consts
         self._loop_stores: dict[int, set[str]] = {}
+        #: attribute keys ("self._x") another thread may change between two reads: every read is a value of its own
+        self.volatile: set[str] = set()
         #: loop exits are explored precisely: zero iterations (pre-state, no havoc) and "after a last iteration"
         #: (havoc, one trip through the body, back to the head, exit) -- instead of one havocked exit
         self.peel = True
@@ -392,6 +400,9 @@ class Evaluator:
         b = self.term(e.value, st, log, nid)
         if b[0] == "sym":
             k = f"{b[1]}.{e.attr}"
+            if k in self.volatile and log:
+                st.nfresh += 1
+                return ("read", st.nfresh, k)
             if k in st.env:
                 return st.env[k]
             if self.fold_consts:
@@ -596,12 +607,14 @@ class Evaluator:
             if cur != truth:
                 st.feasible = False
             st.cond.append((t, truth))
+            st.cond_held.append(st.held)
             return
         if (tag == "and" and truth) or (tag == "or" and not truth):
             for x in t[1:]:
                 self.add_cond(st, x, truth)
             return
         st.cond.append((t, truth))
+        st.cond_held.append(st.held)
         if tag in ("and", "or"):
             unknown = [x for x in t[1:] if tv(x, st.known) is None]
             if len(unknown) == 1:
@@ -705,7 +718,9 @@ class Evaluator:
         k = n.kind
         if k in ("entry", "return", "raise", "finally", "finally_end", "withexit"):
             if k == "withexit":
-                st.events.append(Event("withexit", n.owner, n.id, ncond=len(st.cond)))
+                st.events.append(Event("withexit", n.owner, n.id, ncond=len(st.cond), held=st.held))
+                nitems = len(n.owner.items) if isinstance(n.owner, ast.With) else 1
+                st.held = st.held[:max(0, len(st.held) - nitems)]
             return
         if k in ("test", "for") and self.havoc and isinstance(n.owner, (ast.While, ast.For)) and self.has_back_edge(n) \
                 and not getattr(st, "_no_havoc", False) and (label == "true" or not self.peel):
@@ -721,6 +736,7 @@ class Evaluator:
                         continue
                 st.env[full] = ("havoc", n.id, full)
         n0 = len(st.events)
+        held_before = st.held
         if k == "test":
             t = self.term(a, st, True, n.id)
             if label in ("true", "false"):
@@ -790,6 +806,17 @@ class Evaluator:
                         st.events.append(Event("del", a, n.id, target=kk or norm(tg), ncond=len(st.cond)))
                         if kk is not None:
                             st.env.pop(kk, None)
+        for ev in st.events[n0:]:
+            if not ev.held:
+                ev.held = held_before
+            # explicit lock protocol: x.acquire() ... x.release()
+            if ev.kind == "call" and ev.attr == "acquire" and ev.recv is not None and not exc:
+                st.held = st.held + (ev.recv,)
+            elif ev.kind == "call" and ev.attr == "release" and ev.recv is not None and ev.recv in st.held:
+                i = len(st.held) - 1 - st.held[::-1].index(ev.recv)
+                st.held = st.held[:i] + st.held[i + 1:]
+            elif ev.kind == "with" and not exc:
+                st.held = st.held + (ev.value,)
         if exc:
             for ev in st.events[n0:]:
                 ev.raised = True
